@@ -20,6 +20,9 @@ def make_data(n, dims, grid, seed, outlier_prob, offset=0.0):
     data = []
     for i in range(n):
         tab = rs.randint(1, 9, size=(dims, grid)).astype(float)
+        if i == 2 and n >= 4:
+            tab = prev_tab.copy()          # two data points with identical likelihoods (mutations with identical read counts)
+        prev_tab = tab
         op = compute_outlier_prob(outlier_prob, (1, 3, 2)[i % 3])     # cluster sizes 1-3, as a clustered input gives
         # offset > 0: a "heavy" data point (a large cluster / many reads): every log-likelihood lowered by `offset`
         data.append(DataPoint(i, np.ascontiguousarray(np.log(tab) - offset), name="m%d" % i, outlier_prob=op[0], outlier_prob_not=op[1]))
@@ -80,6 +83,10 @@ def run_one(n, dims, seed, opts, grid=5, want_events=True, offset=0.0):
         if lp is None or not isinstance(lp, (float, np.floating)) or not math.isfinite(float(lp)):
             out["problems"].append(("not_finite", "entry %d: log_p_one = %r" % (j, lp)))
         try:
+            # restored with COLD memo tables, as a summary command in another process would
+            from phyclone.tree.utils import compute_log_S, _convolve_two_children
+            compute_log_S.cache_clear()
+            _convolve_two_children.cache_clear()
             t = Tree.from_dict(e["tree"])
             key, _ = absstate.project(t, full=True)
         except absstate.Inconsistent as ex:
